@@ -84,10 +84,10 @@ def random_geometry_recipe(rng, kind):
         r["n"] = rng.choice([1, 3, 17])
         r["colors"] = rng.random() < 0.5
     elif kind in ("path2d", "path3d"):
-        r["shape"] = rng.choice(["square", "nested", "polyline_open", "circle", "rounded"]) if kind == "path2d" else rng.choice(["square", "polyline_open"])
+        r["shape"] = rng.choice(["square", "nested", "polyline_open", "circle", "rounded", "dshape", "closed_circle", "reversed_arcs", "lens"]) if kind == "path2d" else rng.choice(["square", "polyline_open"])
     elif kind == "voxel":
-        r["n"] = rng.choice([2, 3, 5])
-        r["fill"] = rng.choice([0.2, 0.5, 0.9])
+        r["n"] = rng.choice([2, 3, 5, 9])
+        r["fill"] = rng.choice([0.2, 0.5, 0.9, 0.01, 0.995])
         r["pitch"] = rng.choice([1.0, 0.25])
     return r
 
@@ -180,6 +180,21 @@ def build_geometry(r):
             c, rad = rs.uniform(-1, 1, 2), 0.75
             P = c + rad * np.array([[1, 0], [0, 1], [-1, 0], [0, -1]], dtype=float)
             return trimesh.path.Path2D(entities=[Arc([0, 1, 2]), Arc([2, 3, 0])], vertices=P, process=False)
+        if shape == "closed_circle":
+            c, rad = rs.uniform(-1, 1, 2), 0.8
+            ang = np.array([0.3, 2.3, 4.3])
+            P = c + rad * np.column_stack([np.cos(ang), np.sin(ang)])
+            return trimesh.path.Path2D(entities=[Arc([0, 1, 2], closed=True), Line([3, 4, 5, 6, 3])], vertices=np.vstack([P, sq + [4.0, 0.0]]), process=False)
+        if shape in ("dshape", "lens", "reversed_arcs"):
+            c, rad = rs.uniform(-1, 1, 2), 1.2
+            if shape == "dshape":
+                ang = np.array([-1.03, 0.585, 2.2])  # a 185 degree arc closed by its chord
+                P = c + rad * np.column_stack([np.cos(ang), np.sin(ang)])
+                return trimesh.path.Path2D(entities=[Arc([0, 1, 2]), Line([2, 0])], vertices=P, process=False)
+            ang = np.array([0.2, 1.7, 3.3, 5.0])
+            P = c + rad * np.column_stack([np.cos(ang), np.sin(ang)])
+            ents = [Arc([0, 1, 2]), Arc([2, 3, 0])] if shape == "lens" else [Arc([2, 1, 0]), Arc([0, 3, 2])]
+            return trimesh.path.Path2D(entities=ents, vertices=P, process=False)
         # rounded: a stadium = two lines + two half-circle arcs
         P = np.array([[0, 0], [2, 0], [2.5, 0.5], [2, 1], [0, 1], [-0.5, 0.5]], dtype=float)
         return trimesh.path.Path2D(entities=[Line([0, 1]), Arc([1, 2, 3]), Line([3, 4]), Arc([4, 5, 0])], vertices=P, process=False)
@@ -234,7 +249,19 @@ def content(obj):
         return c
     if isinstance(obj, trimesh.path.path.Path):
         segs = [np.asarray(e.discrete(obj.vertices), dtype=float) for e in obj.entities]
-        return {"kind": "path", "n_entities": len(obj.entities), "kinds": [type(e).__name__ for e in obj.entities], "ends": [np.array([s[0], s[-1]]) for s in segs], "length": float(sum(np.linalg.norm(np.diff(s, axis=0), axis=1).sum() for s in segs)), "bounds": np.asarray(obj.bounds, dtype=float)}
+
+        def ends(e, s_):
+            # the two end points as an unordered pair (a format may store an arc by centre and angles, i.e. without direction);
+            # a closed circle has no end points: its extent stands in for them
+            if getattr(e, "closed", False) and type(e).__name__ == "Arc":
+                info = e.center(obj.vertices)
+                c_ = np.asarray(info.center, dtype=float)[: s_.shape[1]]
+                return np.array([c_ - float(info.radius), c_ + float(info.radius)])
+            pair = np.array([s_[0], s_[-1]])
+            return pair[np.lexsort(pair.T[::-1])]
+
+        return {"kind": "path", "n_entities": len(obj.entities), "kinds": [type(e).__name__ for e in obj.entities], "ends": [ends(e, s_) for e, s_ in zip(obj.entities, segs)],
+                "length": float(sum(np.linalg.norm(np.diff(s_, axis=0), axis=1).sum() for s_ in segs)), "bounds": np.asarray(obj.bounds, dtype=float)}
     if isinstance(obj, trimesh.voxel.VoxelGrid):
         pts = np.asarray(obj.points, dtype=float)
         return {"kind": "voxel", "shape": list(obj.shape), "filled": pts[np.lexsort(pts.T[::-1])] if len(pts) else pts}
